@@ -23,6 +23,7 @@ type Oblig struct {
 	Src     string
 	Bounded bool
 	Self    int // index of the assumption entry derived from this obligation (-1 if none)
+	Pre     *Oblig // after-call vacuity probes: the same probe taken just before the call (an infeasible path is not a vacuous contract)
 	// result
 	Status   string
 	Solver   string
@@ -97,6 +98,7 @@ type Exec struct {
 	slenAxiom   bool
 	ranged      map[int]bool
 	mapLenKeys  map[string]bool
+	callpreUsed map[string]bool
 	curAlloc    *Term
 	slotAxiom   bool
 	pendingDyn  map[string]*Term
